@@ -265,4 +265,23 @@ func VerifH_TreeCrash() {
 		}
 	}
 	verifrt.Assert(size <= uint64(n), "nothing beyond what was appended is recovered")
+	// the recovered tree keeps working: one more append lands right after the recovered
+	// entries (stale bytes of unrecovered entries in the payload/digest logs are overwritten,
+	// not counted)
+	extra, extraLeaves := verifPayloads(1, "payloadAfterRecovery")
+	for k := 0; k <= n; k++ {
+		if uint64(k) == size {
+			nn, _, err := t2.Append(extra[0])
+			verifrt.Assert(err == nil && nn == uint64(k+1), "append after recovery")
+			all := append(append([][sha256.Size]byte(nil), leaves[:k]...), extraLeaves[0])
+			r, err := t2.RootAt(uint64(k + 1))
+			verifrt.Assert(err == nil && r == verifMTH(all), "root after the post-recovery append")
+			d, err := t2.DataAt(uint64(k + 1))
+			verifrt.Assert(err == nil && bytes.Equal(d, extra[0]), "payload of the post-recovery append")
+			if k > 0 {
+				r, err := t2.RootAt(uint64(k))
+				verifrt.Assert(err == nil && r == verifMTH(leaves[:k]), "earlier root unchanged by the post-recovery append")
+			}
+		}
+	}
 }
